@@ -52,6 +52,9 @@ func s2Grid(context *api.Context, area b6.Area, level int) (b6.Collection[int, s
 
 // Return a collection of of s2 cells tokens that cover the given area at the given level.
 func s2Covering(context *api.Context, area b6.Area, minLevel int, maxLevel int) (b6.Collection[int, string], error) {
+	if err := requireArea("s2-covering", area); err != nil {
+		return b6.Collection[int, string]{}, err
+	}
 	coverer := s2.RegionCoverer{MinLevel: minLevel, MaxLevel: maxLevel}
 	cells := make(s2.CellUnion, 0, 4)
 	for i := 0; i < area.Len(); i++ {
